@@ -80,9 +80,9 @@ partial def maskIds : Item → Item
     | [(k1, Item.int i), (k2, v2), (k3, v3)] =>
       if k1 == "id".toList && k2 == "key".toList && k3 == "value".toList then
         let v3' := match v2, v3 with
-          | .str k, .int v => if k == "id".toList then Item.int (v / 10000000000) else v3
+          | .str k, .int v => if k == "id".toList then Item.int (Int.tdiv v 10000000000) else v3
           | _, _ => v3
-        .obj [(k1, .int (i / 10000000000)), (k2, v2), (k3, v3')]
+        .obj [(k1, .int (Int.tdiv i 10000000000)), (k2, v2), (k3, v3')]
       else .obj kvs'
     | _ => .obj kvs'
   | x => x
